@@ -103,6 +103,19 @@ def make_space(n_trees, nt, funs, min_depth, max_depth, n_iter=1, script=None):
                      lower_bound=[0, 0], upper_bound=[1, 1])
 
 
+def live_space(c, n_trees=1, n_iter=1, script=None):
+    """The space of a case.  With `funs0` the space is BUILT with the function set funs0 and `functions` is
+    re-assigned (or rewritten in place) to `funs` afterwards: a history on a live space."""
+    sp = make_space(n_trees, c['nt'], c.get('funs0', c['funs']), c['min'], c['max'], n_iter=n_iter, script=script)
+    if 'funs0' in c:
+        names = [OPS[i] for i in c['funs']]
+        if c.get('inplace'):
+            sp.functions[:] = names
+        else:
+            sp.functions = names
+    return sp
+
+
 def build(shape, space):
     if shape[0] == 'T':
         return Node(name=shape[1], type='TERMINAL', value=space.terminals[shape[1]].position)
@@ -445,7 +458,7 @@ def run_deepcopy(c):
 
 
 def run_grow(c):
-    sp = make_space(1, c['nt'], c['funs'], c['min'], c['max'])
+    sp = live_space(c)
     s = Script(c['ds'])
     with s:
         t, exc = guarded(lambda: sp.grow(sp.min_depth, sp.max_depth))
@@ -462,7 +475,7 @@ def run_grow(c):
 
 
 def run_mutate(c):
-    sp = make_space(1, c['nt'], c['funs'], c['min'], c['max'])
+    sp = live_space(c)
     t = build(c['shape'], sp)
     fixture_ok = check_wf(t, sp) is None
     before = snap(t)
@@ -577,6 +590,14 @@ def run_cross(c):
     c['o9'] = o
 
 
+def fit_codes(floats):
+    """Order- and equality-preserving integer codes of float fitnesses, with +-0.0 -> 0 (what `==`, `<`, min,
+    argmax and the literal 0 of `fitness[worst] = 0` can observe)."""
+    vals = sorted(set([0.0] + [float(f) + 0.0 for f in floats]))
+    z = vals.index(0.0)
+    return {v: i - z for i, v in enumerate(vals)}
+
+
 def set_population(sp, shapes, fits):
     sp.trees = [build(s, sp) for s in shapes]
     for i, (a, f) in enumerate(zip(sp.agents, fits)):
@@ -596,7 +617,9 @@ def ref_tournament(fits, n, picks, tsize):
 def run_repro(c):
     n = len(c['fits'])
     sp = make_space(n, c['nt'], [0], 1, 1)
-    set_population(sp, c['shapes'], c['fits'])
+    real = c.get('ffits', c['fits'])
+    code = fit_codes(real)
+    set_population(sp, c['shapes'], real)
     gp = GP(hyperparams={'p_reproduction': c['p']})
     old_t, old_a = list(sp.trees), list(sp.agents)
     fixture_ok = all(check_wf(t, sp) is None for t in old_t)
@@ -614,7 +637,7 @@ def run_repro(c):
         AG.setdefault(id(a), len(AG))
     ags = []
     for a in new_a:
-        ags += [AG[id(a)] + 2, int(a.fit) + 1000, int(a.position.flat[0])]
+        ags += [AG[id(a)] + 2, code.get(float(a.fit) + 0.0, 99999) + 1000, int(a.position.flat[0])]
     if any(not isinstance(t, Node) for t in new_t):
         c['exp'] = [[889]]
     else:
@@ -629,7 +652,7 @@ def run_repro(c):
 
 def oracle_repro(c, sp, old_t, old_a, before, new_t, new_a):
     n = len(old_t)
-    fits = [float(f) for f in c['fits']]
+    fits = [float(f) for f in c.get('ffits', c['fits'])]
     if len(new_t) != n or len(new_a) != n or any(not isinstance(t, Node) for t in new_t):
         return 'population size changed', 'other'
     if len(set(id(a) for a in new_a)) != n:
@@ -676,7 +699,8 @@ def oracle_repro(c, sp, old_t, old_a, before, new_t, new_a):
 def run_gp(c):
     """A whole scripted GP.run: snapshots at every hook and at return."""
     s = Script(c['ds'], c['picks'])
-    fits = list(c['fits'])
+    fits = list(c.get('ffits', c['fits']))
+    code = fit_codes(fits)
     used = [0]
 
     def objective(x):
@@ -691,7 +715,7 @@ def run_gp(c):
         if any(not isinstance(t, Node) for t in [sp.best_tree] + list(sp.trees)):
             snaps.append([[889]])
         else:
-            snaps.append(ser(sp, [sp.best_tree] + list(sp.trees)) + [[int(a.fit) + 1000 if a.fit < 1e300 else 1000 for a in sp.agents]])
+            snaps.append(ser(sp, [sp.best_tree] + list(sp.trees)) + [[code.get(float(a.fit) + 0.0, 99999) + 1000 if a.fit < 1e300 else 1000 for a in sp.agents]])
         if oracle[0] is None:
             o = None
             if len(sp.trees) != c['n_trees'] or len(sp.agents) != c['n_trees']:
@@ -705,7 +729,7 @@ def run_gp(c):
         take(sp, 'hook call %d' % len(snaps))
     with s:
         def go():
-            sp = make_space(c['n_trees'], c['nt'], c['funs'], c['min'], c['max'], n_iter=c['iters'], script=s)
+            sp = live_space(c, c['n_trees'], c['iters'], script=s)
             o = check_population(sp, [('best_tree', sp.best_tree)] + [('tree %d' % i, t) for i, t in enumerate(sp.trees)])
             if not o:
                 for i, t in enumerate(sp.trees):
@@ -733,7 +757,26 @@ def run_gp(c):
     c['o8'] = oracle[0]
 
 
-RUNNERS = {'find': run_find, 'deepcopy': run_deepcopy, 'grow': run_grow, 'mutate': run_mutate, 'cross': run_cross,
+def run_tourn(c):
+    """general.tournament_selection called directly: every selected index must be a round winner."""
+    import opytimizer.math.general as g
+    real = [float(f) for f in c.get('ffits', c['fits'])]
+    s = Script((), c['picks'])
+    with s:
+        sel, exc = guarded(lambda: g.tournament_selection(list(real), c['k']))
+    if exc:
+        c['exp'], c['exc'] = EXC, exc
+        c['o9'] = 'tournament_selection raised ' + exc
+        return
+    sel = [int(x) for x in sel]
+    c['exp'] = [sel, [len(s.picks) - s.np_]]
+    c['nontrivial'] = len(set(real)) > 1
+    want = ref_tournament(real, c['k'], c['picks'], oc.TOURNAMENT_SIZE)
+    c['o9'] = None if sel == want else 'fitness %r, picks %r: selected %r but the round winners are %r' % (
+        real, c['picks'], sel, want)
+
+
+RUNNERS = {'tourn': run_tourn, 'find': run_find, 'deepcopy': run_deepcopy, 'grow': run_grow, 'mutate': run_mutate, 'cross': run_cross,
            'repro': run_repro, 'gp': run_gp}
 
 
@@ -832,6 +875,39 @@ def gen_cases(quick):
                 for pk in scripts:
                     cases.append({'fam': 'repro', 'nt': nt, 'shapes': pool[:n], 'fits': list(fits), 'p': k / n if n != 3 else [0.34, 0.67, 1.0][k - 1],
                                   'k': k, 'picks': pk[:2 * k]})
+    # near ties: two DISTINCT fitnesses that a tolerant comparison would confuse, the better one at the higher index
+    ties = [[1.0 + 1e-9, 1.0], [2e-9, 1e-9], [1e5 + 1e-3, 1e5], [1e-310, 5e-324], [-1e-9, -2e-9], [0.0, -0.0],
+            [-0.0, 0.0], [3.0, 1.0 + 1e-9, 1.0], [1e-9, 5.0, 5e-10], [7.0, 7.0 - 1e-12, 7.0 - 2e-12],
+            [2.0, 2.0 * (1 + 2e-6), 2.0 * (1 - 2e-6)], [1e-9, 0.0, -1e-9], [4.0, 1e5 + 1e-3, 1e5, 1e5 - 1e-3]]
+    for real in ties:
+        n = len(real)
+        code = fit_codes(real)
+        zf = [code[float(f) + 0.0] for f in real]
+        best = real.index(min(real))
+        for k in range(1, n + 1):
+            scripts = [[best] * (2 * k), [n - 1, best] * k, list(range(n)) * k, [r.randrange(n) for _ in range(2 * k)]]
+            for pk in scripts:
+                pk = pk[:2 * k]
+                cases.append({'fam': 'repro', 'nt': nt, 'shapes': pool[:n], 'fits': zf, 'ffits': real, 'k': k, 'picks': pk,
+                              'p': k / n if n != 3 else [0.34, 0.67, 1.0][k - 1]})
+                cases.append({'fam': 'tourn', 'fits': zf, 'ffits': real, 'k': k, 'picks': pk})
+    for fits in ([1, 2, 3, 4], [3, 1, 1, 0], [-2, 0, 1, 3], [5], [2, 2]):
+        for _ in range(3):
+            k = r.randint(0, 4)
+            cases.append({'fam': 'tourn', 'fits': fits, 'k': k, 'picks': [r.randrange(len(fits)) for _ in range(2 * k)]})
+    # histories: the function set of a LIVE space is re-assigned / rewritten in place, then trees are grown
+    hist = [([1, 5], [5, 1]), ([1, 5], [4, 0]), ([1], [5, 2, 7]), ([1, 5, 2], [6]), ([], [0, 4]), ([0, 1, 2], [7, 8, 9]),
+            ([4, 5], [1, 4, 0, 9]), ([3, 6], [])]
+    for hi, (f0, f1) in enumerate(hist):
+        ar1 = [oc.N_ARGS_FUNCTION[OPS[i]] for i in f1]
+        for (mn, mx) in ((1, 2), (2, 4)) if hi < 3 else ((1, 2),):
+            for ds in all_grow_scripts(mx - mn, len(f1), 2, ar1):
+                cases.append({'fam': 'grow', 'nt': 2, 'funs0': f0, 'funs': f1, 'inplace': bool(hi % 2), 'min': mn, 'max': mx, 'ds': ds})
+        for s in sh2[1:6]:
+            n = shape_size(s)
+            for bs in all_grow_scripts(1, len(f1), nt, ar1)[:12]:
+                cases.append({'fam': 'mutate', 'nt': nt, 'funs0': f0, 'funs': f1, 'inplace': bool(hi % 2), 'min': 1, 'max': 2,
+                              'shape': s, 'maxn': n + 2, 'ds': [(0, n)] + [(a, b) for a, b in bs]})
     # whole GP runs
     for i in range(10 if quick else 300):
         n_trees = r.randint(3, 6)
@@ -839,12 +915,23 @@ def gen_cases(quick):
         fs = r.sample(range(10), r.randint(1, 4))
         mn = r.randint(1, 2)
         mx = mn + r.randint(1, 2)
-        cases.append({'fam': 'gp', 'n_trees': n_trees, 'nt': r.randint(1, 3), 'funs': fs, 'min': mn, 'max': mx, 'iters': iters,
-                      'p_rep': r.choice([0.25, 0.5, 0.75]), 'p_mut': r.choice([0.25, 0.5, 1.0]), 'p_cross': r.choice([0.25, 0.5, 1.0]),
-                      'ratio': r.choice([(0, 1), (1, 4), (1, 2)]),
-                      'ds': [(r.randrange(64), 64) for _ in range(400 + 200 * iters)],
-                      'picks': [r.randrange(n_trees) for _ in range(40 * (iters + 1))],
-                      'fits': [r.choice([-3, -1, 0, 1, 2, 5, 8]) for _ in range(n_trees * (iters + 2))]})
+        gc = {'fam': 'gp', 'n_trees': n_trees, 'nt': r.randint(1, 3), 'funs': fs, 'min': mn, 'max': mx, 'iters': iters,
+              'p_rep': r.choice([0.25, 0.5, 0.75]), 'p_mut': r.choice([0.25, 0.5, 1.0]), 'p_cross': r.choice([0.25, 0.5, 1.0]),
+              'ratio': r.choice([(0, 1), (1, 4), (1, 2)]),
+              'ds': [(r.randrange(64), 64) for _ in range(400 + 200 * iters)],
+              'picks': [r.randrange(n_trees) for _ in range(40 * (iters + 1))],
+              'fits': [r.choice([-3, -1, 0, 1, 2, 5, 8]) for _ in range(n_trees * (iters + 2))]}
+        if i % 2:
+            # converged-population fitnesses: distinct values a tolerant comparison would identify
+            fpool = [1.0, 1.0 + 1e-9, 1.0 - 1e-9, 1e-9, 2e-9, 5e-10, -1e-9, 0.0, 5.0, 1e5, 1e5 + 1e-3]
+            real = [r.choice(fpool) for _ in gc['fits']]
+            code = fit_codes(real)
+            gc['ffits'], gc['fits'] = real, [code[float(f) + 0.0] for f in real]
+        if i % 3 == 0:
+            # history: the space is built with another function set, `functions` is re-assigned before the run
+            gc['funs0'] = r.sample(range(10), r.randint(1, 4))
+            gc['inplace'] = bool(i % 2)
+        cases.append(gc)
     return cases
 
 
